@@ -78,13 +78,13 @@ def make_any(frontend, framing, fc, L, reads):
                 explain("holding registers changed from %r to %r without a justified write request in the input", list(regs), after)
                 return False
         # service continues: probe on a fresh connection
-        probe = adu.ref_adu(framing, bytes([3, 0, 0, 0, 2]), 1, b"\x12\x34")
+        probe = adu.ref_adu_clean(framing, bytes([3, 0, 0, 0, 2]), 1, b"\x12\x34")
         r2 = SL.drive(frontend, framing, ctx, [probe])
         if r2.escaped is not None or r2.twisted_dropped is not None:
             explain("probe connection failed: %r", r2.escaped or r2.twisted_dropped)
             return False
         exp_pdu = bytes([3, 4]) + bytes([after[0] // 256, after[0] % 256, after[1] // 256, after[1] % 256])
-        return len(r2.written) == 1 and same(r2.written[0], adu.ref_adu(framing, exp_pdu, 1, b"\x12\x34"), "probe response")
+        return len(r2.written) == 1 and same(r2.written[0], adu.ref_adu_clean(framing, exp_pdu, 1, b"\x12\x34"), "probe response")
     return anyb
 
 
@@ -111,7 +111,7 @@ def make_framed(frontend, framing, fc, blen, fix=()):
         regs = [st[2 * i] * 256 + st[2 * i + 1] for i in range(4)]
         slave = SL.small_context(hr=regs)
         ctx = SL.server_context(slave, single=True)
-        frame = adu.ref_adu(framing, bytes([fc]) + b, unit, hdr[0:2])
+        frame = adu.ref_adu_clean(framing, bytes([fc]) + b, unit, hdr[0:2])
         r = SL.drive(frontend, framing, ctx, [frame])
         if r.escaped is not None:
             explain("%s escaped the front-end: %s", type(r.escaped).__name__, r.escaped)
@@ -128,12 +128,12 @@ def make_framed(frontend, framing, fc, blen, fix=()):
             return False
         if not same(after, exp, "holding registers after the request"):
             return False
-        probe = adu.ref_adu(framing, bytes([3, 0, 0, 0, 2]), 1, b"\x12\x34")
+        probe = adu.ref_adu_clean(framing, bytes([3, 0, 0, 0, 2]), 1, b"\x12\x34")
         r2 = SL.drive(frontend, framing, ctx, [probe])
         if r2.escaped is not None or r2.twisted_dropped is not None:
             return False
         exp_pdu = bytes([3, 4]) + bytes([after[0] // 256, after[0] % 256, after[1] // 256, after[1] % 256])
-        return len(r2.written) == 1 and same(r2.written[0], adu.ref_adu(framing, exp_pdu, 1, b"\x12\x34"), "probe response")
+        return len(r2.written) == 1 and same(r2.written[0], adu.ref_adu_clean(framing, exp_pdu, 1, b"\x12\x34"), "probe response")
     return framed
 
 
@@ -198,6 +198,11 @@ def obligations(tier):
             continue
         for fc, L in ((6, 5), (22, 7)):
             plan.append((fe, "tcp", fc, L, 1))
+    # truncated RTU requests of functions whose frame size comes from a byte-count field that has not arrived yet
+    for fc, L in ((16, 3), (16, 6), (23, 6), (21, 2)) if tier == "quick" else ((15, 2), (15, 5), (16, 2), (16, 3), (16, 6), (23, 3), (23, 6), (23, 10), (20, 2), (21, 2)):
+        plan.append(("sync-serial", "rtu", fc, L, 1))
+        if tier != "quick":
+            plan.append(("sync-tcp", "rtu", fc, L, 1))
     for fe, fr, fc, L, reads in plan:
         out.append(Obl("any.%s.%s.fc%d.len%d.reads%d" % (fe, fr, fc, L, reads), make_any(fe, fr, fc, L, reads), timeout=T,
                        contracts=contracts[fr], lemmas=lem[fr], findings=("KF-ascii-lenient-lrc-field",) if fr == "ascii" and reads == 1 else (),
